@@ -409,6 +409,60 @@ def d4_version_tables(ctx, rule_id="D4"):
                       key=f"dense:{mv}:{nshank}")
 
 
+def _closed_form_equal(du, e, at):
+    """Is the per-channel expression `e` (over arange(NC), adc_channels, n_cycles) equal to ((c // 2) mod adc_channels) / n_cycles for every channel c of a probe and
+    every (channels per ADC, cycles) pair around the version table?  Evaluated exactly (rationals) on the finite domain; False when not evaluable."""
+    from fractions import Fraction
+    import math
+    from sa.common import expand_deep
+    ex = expand_deep(du, e, at, keep=("NC", "adc_channels", "n_cycles"))
+
+    def ev(x, env):
+        if isinstance(x, ast.Constant) and isinstance(x.value, (int, float)) and not isinstance(x.value, bool):
+            return Fraction(x.value)
+        if isinstance(x, ast.Name):
+            return env[x.id]
+        if isinstance(x, ast.Call):
+            nm = call_name(x)
+            if nm == "arange" and len(x.args) == 1 and loc_name(x.args[0]) == "NC":
+                return env["C"]
+            if nm in ("mod", "remainder") and len(x.args) == 2:
+                a, b = ev(x.args[0], env), ev(x.args[1], env)
+                return a - b * math.floor(a / b)
+            if nm == "floor_divide" and len(x.args) == 2:
+                return Fraction(math.floor(ev(x.args[0], env) / ev(x.args[1], env)))
+            if nm == "floor" and len(x.args) == 1:
+                return Fraction(math.floor(ev(x.args[0], env)))
+            if nm in ("astype", "float64", "float32", "asarray", "array") and (x.args or isinstance(x.func, ast.Attribute)):
+                return ev(x.func.value if nm == "astype" else x.args[0], env)
+            raise KeyError(nm)
+        if isinstance(x, ast.BinOp):
+            a, b = ev(x.left, env), ev(x.right, env)
+            if isinstance(x.op, ast.Add):
+                return a + b
+            if isinstance(x.op, ast.Sub):
+                return a - b
+            if isinstance(x.op, ast.Mult):
+                return a * b
+            if isinstance(x.op, ast.Div):
+                return a / b
+            if isinstance(x.op, ast.FloorDiv):
+                return Fraction(math.floor(a / b))
+            if isinstance(x.op, ast.Mod):
+                return a - b * math.floor(a / b)
+        raise KeyError(type(x).__name__)
+    try:
+        for A in (1, 2, 3, 12, 13, 16):
+            for n in (1, 13, 16):
+                for c in range(0, 4 * 2 * A + 3):
+                    env = {"C": Fraction(c), "adc_channels": Fraction(A), "n_cycles": Fraction(n)}
+                    if ev(ex, env) != Fraction((c // 2) % A, n):
+                        return False
+    except (KeyError, ZeroDivisionError, TypeError):
+        return False
+    return True
+
+
 def d5_adc(ctx):
     ctx.rule("D5", "ADC group/delay depend on the original channel number only; (channels per ADC, cycles) table; evenly spaced delays")
     repo = ctx.repo
@@ -503,8 +557,13 @@ def d5_adc(ctx):
                 got_p = EC().ev(d.value)
             except Undecided as ex:
                 raise AnalysisError(f"adc_shifts: closed-form delay not evaluable: {ex}")
-            ctx.check(got_p == ref, fa, d.stmt, d.stmt, "delay of channel c = ((c // 2) mod channels per ADC) / cycles (distinct, evenly spaced within an ADC)",
-                      f"closed-form delay `{src(d.value)}` normalises to {got_p}, expected {ref}", key="delays")
+            same = got_p == ref
+            if not same:
+                # two integer closed forms whose floor / mod atoms differ syntactically ((c mod 2A) // 2 == (c // 2) mod A): decided on the whole finite domain
+                # (every channel number of a probe, the channels-per-ADC / cycle pairs of the version table and their neighbours)
+                same = _closed_form_equal(du, d.value, d.stmt)
+            ctx.check(same, fa, d.stmt, d.stmt, "delay of channel c = ((c // 2) mod channels per ADC) / cycles (distinct, evenly spaced within an ADC)",
+                      f"closed-form delay `{src(d.value)}` normalises to {got_p}, expected {ref}", key="delays", name_free=True)
     for r in returns_of(fa.node):
         ok = isinstance(r.value, ast.Tuple) and len(r.value.elts) == 2 and all(
             isinstance(e, ast.Subscript) and isinstance(e.slice, ast.Slice) and e.slice.lower is None and loc_name(e.slice.upper) == "nc"
